@@ -401,12 +401,26 @@ func c19Case(c *Ctx, idx int) error {
 		case r < 94:
 			// the access-control service re-binds an address to another user (or to the user of another address): whether a
 			// transfer between two addresses is free of fee follows the binding in force when it runs
+			if rng.Intn(2) == 0 {
+				// the issuer removes a rate that was never set (another currency, or this deal type for a currency that has only
+				// the other one): whatever it answers, nothing the business relies on is touched. No step of the model.
+				msg := tokenRun(cw.w, "tt", iss, &cw.nonce, "deleteRate", []string{"buyToken", "buyBack"}[rng.Intn(2)], []string{"GBP", "GBP", "NOPE"}[rng.Intn(3)])
+				c.Count("delete_of_a_rate_never_set: " + c19Err(msg))
+			}
 			a := []*Account{u1, u2, u3}[rng.Intn(3)]
 			a.UserID = []string{"U1", "U3", "U9"}[rng.Intn(3)]
 			xops = append(xops, fmt.Sprintf("XRebind %d %d", a.N(), uidNum[a.UserID]))
 			c.Count("user_rebound")
 		case r < 95:
-			exec(c19Op{Kind: "setFee", Sender: fs.N(), Cur: []string{"TT", "CURA", "NOPE"}[rng.Intn(3)], A: z(shares[rng.Intn(len(shares))]), B: z(floors[rng.Intn(len(floors))]), C: z(caps[rng.Intn(len(caps))])})
+			fop := c19Op{Kind: "setFee", Sender: fs.N(), Cur: []string{"TT", "CURA", "NOPE"}[rng.Intn(3)], A: z(shares[rng.Intn(len(shares))]), B: z(floors[rng.Intn(len(floors))]), C: z(caps[rng.Intn(len(caps))])}
+			exec(fop)
+			if fop.C.Sign() > 0 && fop.Cur != "NOPE" && rng.Intn(2) == 0 {
+				// the cap is taken away again (0 = none): the next large transfer pays the uncapped fee
+				fop.C = z(0)
+				exec(fop)
+				exec(c19Op{Kind: "transfer", Sender: u1.N(), To: u3.N(), Amount: z(int64(50000 + rng.Intn(100000)))})
+				c.Count("fee_cap_removed_then_large_transfer")
+			}
 		case r < 98:
 			// a rate is updated while the business runs: its limits must survive
 			exec(c19Op{Kind: "setRate", Sender: iss.N(), Deal: []string{"buyToken", "buyBack"}[rng.Intn(2)], Cur: []string{"CURA", "CURB"}[rng.Intn(2)], A: z(int64(1 + rng.Intn(300000000)))})
